@@ -321,7 +321,7 @@ pub fn run(args: &Args) {
     let mut rng = Rng::new(args.seed ^ 0xC01);
     out.comment(&format!("C01 crash seed={} thorough={}", args.seed, args.thorough));
     let focus_c13 = args.extra.iter().any(|a| a == "c13");
-    let histories = if args.thorough { 40 } else if focus_c13 { 1 } else { 4 };
+    let histories = if args.thorough { 24 } else if focus_c13 { 1 } else { 4 };
     let only: Option<usize> = args.extra.iter().position(|a| a == "--only-case").and_then(|i| args.extra.get(i + 1)).and_then(|x| x.parse().ok());
     for case_index in 0..histories {
         let mut r = rng.fork();
@@ -431,7 +431,7 @@ pub fn run(args: &Args) {
             out.count("storage_streams");
         }
         if ok {
-            let budget = if args.thorough { 600 } else { 90 };
+            let budget = if args.thorough { 300 } else { 90 };
             let mut second: Vec<(Vec<u8>, Vec<Ev>, Allowed, String)> = vec![];
             let keep = if args.thorough { 40 } else if focus_c13 { 3 } else { 8 };
             let n1 = {
